@@ -124,3 +124,11 @@ func (r *ruler) helperRules() {
 		r.s.Bad("V16", key, pos, fmt.Sprintf("a context that is destroyed must free each of its own child contexts (recursively: %v), clear its child table and only then go to the free list; a recycled context that still lists children has them freed a second time, and two live iterators end up sharing one context. Found: %s", recursive, strings.Join(evs, "; ")))
 	}
 }
+
+func (r *ruler) okIf(rule, key string, pa *Path, ok bool, good, bad string) {
+	if ok {
+		r.s.OK(rule, key, r.ppos(pa), good)
+	} else {
+		r.s.Bad(rule, key, r.ppos(pa), bad, pa.Describe()...)
+	}
+}
